@@ -14,6 +14,9 @@ type mnode struct {
 	Arg    string
 	HasArg bool
 	Kids   []*mnode
+	// RawArg: the argument is written as it is (an unquoted token, whatever bytes it holds) instead of
+	// being quoted by the renderer when it needs quoting (lexnbr.go)
+	RawArg bool
 }
 
 // mfile is one source file of a set under mutation.
@@ -50,7 +53,7 @@ func parseTree(text, name string) (tops []*mnode, ok bool) {
 }
 
 func (n *mnode) clone() *mnode {
-	c := &mnode{Kw: n.Kw, Arg: n.Arg, HasArg: n.HasArg}
+	c := &mnode{Kw: n.Kw, Arg: n.Arg, HasArg: n.HasArg, RawArg: n.RawArg}
 	for _, k := range n.Kids {
 		c.Kids = append(c.Kids, k.clone())
 	}
@@ -88,7 +91,11 @@ func (n *mnode) render(sb *strings.Builder, ind string) {
 	sb.WriteString(n.Kw)
 	if n.HasArg {
 		sb.WriteByte(' ')
-		sb.WriteString(quoteArg(n.Arg))
+		if n.RawArg {
+			sb.WriteString(n.Arg)
+		} else {
+			sb.WriteString(quoteArg(n.Arg))
+		}
 	}
 	if len(n.Kids) == 0 {
 		sb.WriteString(";\n")
